@@ -354,9 +354,13 @@ void ezc3d::c3d::point(const std::vector<ezc3d::DataNS::Frame>& frames)
             if (!name.compare(labels[i]))
                 throw std::invalid_argument("The point you try to create already exists in the data set");
 
+        // Make sure every frame holds this point before anything is modified
+        for (size_t f=0; f<data().nbFrames(); ++f)
+            frames[f].points().point(idx);
+    }
+    for (size_t idx = 0; idx < frames[0].points().nbPoints(); ++idx)
         for (size_t f=0; f<data().nbFrames(); ++f)
             _data->frame_nonConst(f).points_nonConst().point(frames[f].points().point(idx));
-    }
     updateParameters();
 }
 
@@ -400,6 +404,15 @@ void ezc3d::c3d::analog(const std::vector<ezc3d::DataNS::Frame> &frames)
             if (!name.compare(labels[i]))
                 throw std::invalid_argument("The channel you try to create already exists in the data set");
 
+        // Make sure every subframe of every frame holds this channel before anything is modified
+        for (size_t f=0; f < data().nbFrames(); ++f){
+            for (size_t sf=0; sf < header().nbAnalogByFrame(); ++sf){
+                data().frame(f).analogs().subframe(sf);
+                frames[f].analogs().subframe(sf).channel(idx);
+            }
+        }
+    }
+    for (size_t idx = 0; idx < frames[0].analogs().subframe(0).nbChannels(); ++idx){
         for (size_t f=0; f < data().nbFrames(); ++f){
             for (size_t sf=0; sf < header().nbAnalogByFrame(); ++sf){
                 _data->frame_nonConst(f).analogs_nonConst().subframe_nonConst(sf).channel(frames[f].analogs().subframe(sf).channel(idx));
